@@ -990,6 +990,9 @@ fn drive_case(id: &mut usize, kind: &str, text: &str, ops: &[Op], use_map: bool,
             let (loc, msg) = r.err().unwrap();
             if loc.contains("token_tree") && msg.contains("rewrite finished with unhandled items") || loc.contains("rewrite.rs") {
                 *stats.entry("skipped_panic_in_rewrite".into()).or_default() += 1;
+                if std::env::var("C13_DEBUG").is_ok() {
+                    eprintln!("REWRITE-PANIC {loc}: {msg}: {:?}", text);
+                }
                 return;
             }
         }
